@@ -40,6 +40,10 @@ type In struct {
 	Age    int
 	secret string
 	Next   *In
+	// pointers to things that have no fields (for source paths that try to step through them)
+	PStr  *string
+	PPtr  **Inner
+	PList *[]Inner
 }
 
 func (i In) Full() string { return i.Name }
